@@ -70,7 +70,7 @@ fn root(tagx: &str) -> PathBuf {
 fn live_files(r: &Path) -> Vec<(String, Vec<u8>)> {
     fn walk(root: &Path, d: &Path, out: &mut Vec<(String, Vec<u8>)>) {
         if let Ok(rd) = std::fs::read_dir(d) { for e in rd.flatten() { let p = e.path(); let rel = p.strip_prefix(root).map(|x| x.to_string_lossy().into_owned()).unwrap_or_default();
-            if rel.starts_with(".copia") { continue; }
+            if Path::new(&rel).starts_with(".copia") { continue; }
             if p.is_dir() { walk(root, &p, out) } else if let Ok(b) = std::fs::read(&p) { out.push((rel, b)); } } }
     }
     let mut v = vec![]; walk(r, r, &mut v); v.sort(); v
@@ -98,6 +98,7 @@ pub fn scenarios() -> Vec<(&'static str, fn() -> Option<String>)> {
         ("root-spellings-stay-inside (C11)", sc_root_spellings),
         ("long-non-ascii-names (C12)", sc_long_names),
         ("another-servers-same-length-same-second-commit-is-seen (C03)", sc_stale_view),
+        ("a-put-parked-mid-body-decides-on-the-file-as-it-is-under-the-lock (C03)", sc_stale_midput),
         ("refused-path-of-600k-escapable-bytes-still-answered (C11/C12)", sc_long_refused_path),
         ("put-under-a-file-keeps-stream-in-step (C12)", sc_parent_is_a_file),
         ("every-two-step-history-on-one-path-is-the-sequential-cas (C03)", sc_exhaustive_two_steps),
@@ -354,6 +355,37 @@ fn sc_committed_means_live() -> Option<String> {
         if std::fs::read(r.join("d")).ok().as_deref() != Some(b"payload") { return Some("Put onto a path that is a directory was acknowledged committed:true, but the content is not live there (the failed rename is ignored) (C03)".into()); }
     }
     let _ = s.close_and_wait(5);
+    None
+}
+/// C03: server 1 has received a Put's header (expected = hash of the live content) and HALF its body when server 2 commits
+/// a replacement of the same length in the same wall-clock second; when the rest of server 1's body arrives its
+/// compare-and-swap must lose (conflict copy, live file = server 2's) - whatever it looked at before it held the lock
+fn sc_stale_midput() -> Option<String> {
+    for (tagx, old, c1, c2) in [("mid4", b"AAAA".to_vec(), b"CCCC".to_vec(), b"BBBB".to_vec()), ("midbig", vec![b'a'; 70_000], vec![b'c'; 70_000], vec![b'b'; 70_000])] {
+        let r = root(tagx);
+        let (mut s1, mut s2) = (Srv::start(&r)?, Srv::start(&r)?); s1.magic(); s2.magic();
+        let _ = s1.get("nothing"); let _ = s2.get("nothing");
+        let ms = std::time::SystemTime::now().duration_since(std::time::UNIX_EPOCH).ok()?.subsec_millis();
+        std::thread::sleep(Duration::from_millis(u64::from(1000 - ms) + 20));
+        std::fs::write(r.join("f"), &old).ok()?;
+        s1.send(&Request::Put { path: "f".into(), expected: Some(h(&old)), len: c1.len() as u64, hash: h(&c1) }); s1.raw(&c1[..c1.len() / 2]);
+        std::thread::sleep(Duration::from_millis(250));       // server 1 is parked mid-body
+        let r2 = s2.put("f", Some(h(&old)), &c2);
+        let live2 = std::fs::read(r.join("f")).unwrap_or_default();
+        s1.raw(&c1[c1.len() / 2..]);
+        let r1 = s1.recv(10);
+        let _ = s1.close_and_wait(5); let _ = s2.close_and_wait(5);
+        let live = std::fs::read(r.join("f")).unwrap_or_default();
+        let files = live_files(&r);
+        let res = if !matches!(r2, Some(Response::PutResult { committed: true, .. })) { None }      // not the interleaving we wanted: nothing to say
+            else if matches!(r1, Some(Response::PutResult { committed: true, .. })) || live != live2 {
+                Some(format!("server 1 was parked mid-body of Put(f, expected = hash of the {}-byte content it could see); server 2 then committed a {}-byte replacement in the same second (acknowledged); the rest of server 1's body arrived and it answered {r1:?}; the live file changed from server 2's content: {} - a commit against a hash the file no longer had (lost update) (C03)", old.len(), live2.len(), live != live2))
+            } else if !files.iter().any(|(p, b)| p.contains(".conflict-") && b == &c1) {
+                Some("a Put that lost its compare-and-swap to a commit made while its body was still arriving left no conflict copy with its bytes (C03)".to_string())
+            } else { None };
+        let _ = std::fs::remove_dir_all(&r);
+        if res.is_some() { return res; }
+    }
     None
 }
 fn two_puts(p1: &str, p2: &str, tagx: &str) -> Option<String> {
